@@ -42,6 +42,18 @@ _ops = st.one_of(
 
 @st.composite
 def _case(draw):
+    case = draw(_case0())
+    if draw(st.integers(0, 3)) == 0:
+        # two user watchers registered against the order of their precedences before the copy; the parameter is assigned on
+        # the copy (and on the original) afterwards
+        k1 = draw(st.integers(2, 15))
+        case["pre"] = case["pre"] + [["watch_partial", k1], ["watch_partial", draw(st.integers(k1 + 1, 30))]]
+        case["post"] = [[1, ["set_a", draw(_k)], None], [0, ["set_a", draw(_k)], None]] + case["post"]
+    return case
+
+
+@st.composite
+def _case0(draw):
     return {
         "cls": draw(st.sampled_from(["ParNoSubDep", "ParNoSubDep", "Par", "ParSlots"])),
         # an instance of the parent class was copied earlier in the process (only matters for the subclass with slots)
